@@ -417,6 +417,8 @@ def doc_tree(doc: Doc) -> El:
 
 
 NS_STYLES = ("xtce", "q", "XTCE", "default", "none", "none+xsi")
+EXTRA_NS = {"dc": "http://purl.org/dc/elements/1.1/", "xi": "http://www.w3.org/2001/XInclude", "xlink": "http://www.w3.org/1999/xlink",
+            "xsi": "http://www.w3.org/2001/XMLSchema-instance", "zz": "urn:example:mission"}
 
 
 def ns_prefix_arg(style: str):
@@ -424,7 +426,7 @@ def ns_prefix_arg(style: str):
     # the two 'both' styles bind the XTCE namespace twice on the root (xmlns= and xmlns:xtce=): the elements are spelled one way, the loader
     # is told the OTHER binding, which names the same namespace
     return {"xtce": "xtce", "q": "q", "XTCE": "XTCE", "default": None, "none": None, "none+xsi": None,
-            "both:unprefixed,loaded-as-xtce": "xtce", "both:prefixed,loaded-as-default": None}[style]
+            "both:unprefixed,loaded-as-xtce": "xtce", "both:prefixed,loaded-as-default": None, "xtce+extras": "xtce"}[style]
 
 
 def count_positions(doc: Doc) -> int:
@@ -469,7 +471,7 @@ def render_xml(doc: Doc, style: str = "xtce", comments=None, whitespace: bool = 
     all three alike in every place where it reads a boolean."""
     tree = tree or doc_tree(doc)
     pfx = {"xtce": "xtce:", "q": "q:", "XTCE": "XTCE:", "default": "", "none": "", "none+xsi": "",
-           "both:unprefixed,loaded-as-xtce": "", "both:prefixed,loaded-as-default": "xtce:"}[style]
+           "both:unprefixed,loaded-as-xtce": "", "both:prefixed,loaded-as-default": "xtce:", "xtce+extras": "xtce:"}[style]
     out = ["<?xml version='1.0' encoding='UTF-8'?>\n"]
     pos = [0]
     entities = {}   # text -> entity name (text_style 'entity')
@@ -528,6 +530,10 @@ def render_xml(doc: Doc, style: str = "xtce", comments=None, whitespace: bool = 
                 attrs += f' xmlns:xsi="{XSI_URI}"'
             elif style.startswith("both:"):
                 attrs += f' xmlns="{XTCE_URI}" xmlns:xtce="{XTCE_URI}"'
+            elif style == "xtce+extras":
+                # the XTCE prefix among other declarations the document makes (none of them used by an element)
+                attrs += "".join(f' xmlns:{k}="{v}"' for k, v in EXTRA_NS.items() if k < "xtce") + f' xmlns:xtce="{XTCE_URI}"' + \
+                    "".join(f' xmlns:{k}="{v}"' for k, v in EXTRA_NS.items() if k > "xtce")
         tag = pfx + e.tag
         if not e.children and e.text is None:
             if want_comment():   # a comment as the only content of an otherwise empty element
@@ -699,7 +705,8 @@ def build_objects(doc: Doc, style: str = "xtce"):
     for c in doc.containers:
         if c.base is not None:
             built[c.base].inheritors.append(c.name)
-    ns = {"xtce": {"xtce": XTCE_URI}, "q": {"q": XTCE_URI}, "XTCE": {"XTCE": XTCE_URI}, "default": {None: XTCE_URI}, "none": {}, "none+xsi": {}}[style]
+    ns = {"xtce": {"xtce": XTCE_URI}, "q": {"q": XTCE_URI}, "XTCE": {"XTCE": XTCE_URI}, "default": {None: XTCE_URI}, "none": {}, "none+xsi": {},
+          "xtce+extras": {**{k: v for k, v in EXTRA_NS.items() if k < "xtce"}, "xtce": XTCE_URI, **{k: v for k, v in EXTRA_NS.items() if k > "xtce"}}}[style]
     # the container set is documented as "an iterable": it is handed over as a list, a tuple, a one-shot generator, an iterator or a dict view in
     # rotation (by a property of the document, so that the choice is reproducible)
     clist = [built[c.name] for c in doc.containers]
